@@ -2,10 +2,13 @@ package main
 
 import (
 	"bytes"
+	"crypto/sha256"
+	"encoding/hex"
 	"go/ast"
 	"go/printer"
 	"go/token"
 	"go/types"
+	"regexp"
 	"sort"
 	"strings"
 )
@@ -171,4 +174,50 @@ func indexSites(pkgs map[string]*pkgInfo) {
 	sort.Strings(sites)
 	add("cors_indexSites", ": List Bytes := "+leanBytesList(sites),
 		"every index / slice expression on a string, slice or array in the non-test code with its dominating conditions: pkg.func|expression|guards (sorted)")
+}
+
+var lineComment = regexp.MustCompile(`(?m)//.*$`)
+
+// codeText: the printed node without line comments (doc comments of declarations inside a body survive the
+// printer), white space normalised.
+func codeText(n ast.Node) string {
+	var b bytes.Buffer
+	printer.Fprint(&b, fset, n)
+	return strings.Join(strings.Fields(lineComment.ReplaceAllString(b.String(), "")), " ")
+}
+
+// ixBodies: the statement-by-statement text (comments dropped, white space normalised) of the functions that
+// Model/Ix.lean transliterates with checked index and slice operations.  C17 pins it: the index-level model was
+// written from exactly this text, so an edit of one of these bodies breaks the obligation and the check searches
+// for a failing input.
+func ixBodies(pkgs map[string]*pkgInfo) {
+	want := []string{
+		"origins.parseScheme", "origins.parsePort", "origins.fastParseHost", "origins.lastByte",
+		"origins.splitAtCommonSuffix", "headers.TrimOWS", "headers.trimLeftOWS", "headers.trimRightOWS",
+		"headers.cutAtComma",
+	}
+	found := map[string]string{}
+	for _, p := range pkgs {
+		for _, f := range p.files {
+			for _, d := range f.Decls {
+				fd, ok := d.(*ast.FuncDecl)
+				if !ok || fd.Recv != nil || fd.Body == nil {
+					continue
+				}
+				found[p.name+"."+fd.Name.Name] = exprText(fd.Type) + " " + codeText(fd.Body)
+			}
+		}
+	}
+	var out, texts []string
+	for _, w := range want {
+		body, ok := found[w]
+		if !ok {
+			body = "<missing>"
+		}
+		sum := sha256.Sum256([]byte(body))
+		out = append(out, w+"|"+hex.EncodeToString(sum[:12]))
+		texts = append(texts, "     "+w+"|"+strings.ReplaceAll(body, "-/", "- /"))
+	}
+	add("cors_ixBodies", ": List Bytes := "+leanBytesList(out),
+		"fingerprints (SHA-256, first 12 bytes) of the text of the functions modelled at index level (Model/Ix.lean): pkg.func|hash of `signature body`, comments dropped, white space normalised. The texts:\n"+strings.Join(texts, "\n"))
 }
